@@ -456,8 +456,11 @@ func (doc *T) derefPaths(paths map[string]*PathItem, refNameResolver RefNameReso
 	for _, name := range componentNames(paths) {
 		ops := paths[name]
 		pathIsExternal := isExternalRef(ops.Ref, parentIsExternal)
-		// inline full operations
-		ops.Ref = ""
+		// inline the full operations of a path item taken from another file; a reference that stays
+		// inside the document is kept (the path item it names may be reached again from below itself)
+		if pathIsExternal {
+			ops.Ref = ""
+		}
 
 		for _, param := range ops.Parameters {
 			isExternal := doc.addParameterToSpec(param, refNameResolver, pathIsExternal)
